@@ -278,6 +278,22 @@ def inDistance (d : Rat × Rat) (c : Cell) : Bool :=
 def filterByDistance (d : Rat × Rat) (t : Table) : Except Err Table :=
   if d.1 < d.2 then .ok (t.filter fun r => r.anySide (inDistance d)) else .error "AssertionError"
 
+/-- the sub-table every public selection entry point works on — `analyze(**kwargs, distance=d)`,
+`filter_by_distance(d, get(**kwargs))`: the keyword selection (`get` / `filter`), then the distance
+selection.  A row PAIR is kept or dropped as a whole (`analyze_eq_selectTable`: `analyze` computes on
+exactly this table). -/
+def selectTable (full : Table) (s : Sel) (distance : Option (Rat × Rat)) : Except Err Table :=
+  match distance with
+  | none => .ok (full.select s)
+  | some d => filterByDistance d (full.select s)
+
+/-- the pair predicate of a selection: every given keyword is matched by SOME row of the pair, and (if a
+distance range is given) SOME row of the pair lies in `[d0, d1)` — the two rows may be different ones -/
+def RowPair.selected (s : Sel) (distance : Option (Rat × Rat)) (r : RowPair) : Bool :=
+  r.keep s && (match distance with
+    | none => true
+    | some d => r.anySide (inDistance d))
+
 /-- `get_ground_truth`: ground-truth rows with a status, then the keyword filters -/
 def getGroundTruth (t : Table) (s : Sel := {}) : List Cell :=
   (t.filterMap (·.gt)).filter (·.matches s)
